@@ -57,3 +57,41 @@ def streams(tier, seed):
 P = StreamProperty("C12", [IntegralOracle, ConsistencyOracle], streams, RULE, ("C12",),
                    lambda ops: len(ops[0]["dims"]) >= 2 or "regions" in ops[-1]["kw"])
 run, replay = P.run, P.replay
+
+
+# ------------------------------------------------------------------ the same numbers stored in another dtype
+from oracles import dtype_independence, merge_oracle
+from common import np, dnp
+DTYPE_CASES = [("integrate", lambda d, dim: dnp.integrate(d, dim), "t2"),
+    ("integrate-regions", lambda d, dim: dnp.integrate(d, dim, regions=[(1.0, 7.0), (4.0, 12.0)]), "t2"),
+    ("cumulative_integrate", lambda d, dim: dnp.cumulative_integrate(d, dim), "t2"),
+    ("enhancement", lambda d, dim: dnp.calculate_enhancement(_power_first(dnp.integrate(d, "y3"))), "Power")]
+_run_before_dtype = run
+
+
+def _power_first(x):
+    x.reorder(["Power"])
+    return x
+
+
+def run(tier, seed, escalate=False):
+    """… plus: integer / single-precision / complex storage of the values and integer / unsigned / single-precision storage of
+    the processed axis give the result of the float64 object (a dtype the function refuses is not judged)"""
+    res = _run_before_dtype(tier, seed, escalate)
+    f, n = dtype_independence("C12", DTYPE_CASES, seed, dim_positions=(1,) if tier == "quick" and not escalate else (0, 1, 2))
+    return merge_oracle(res, f, n, "storage_dtype_variants")
+
+
+# ------------------------------------------------------------------ the same axis in another unit
+from oracles import axis_scale_independence
+SCALE_CASES = [("integrate", lambda d, dim, s: dnp.integrate(d, dim), "t2", lambda s: s, None),
+    ("integrate-regions", lambda d, dim, s: dnp.integrate(d, dim, regions=[(0.7 * s, 4.2 * s), (2.9 * s, 8.8 * s)]), "t2", lambda s: s, None),
+    ("cumulative_integrate", lambda d, dim, s: dnp.cumulative_integrate(d, dim), "t2", lambda s: s, lambda s: s)]
+_run_before_scale = run
+
+
+def run(tier, seed, escalate=False):
+    """… plus: the processed axis expressed at scales 1e-9 … 1e6 (coordinate-valued arguments scaled alike)"""
+    res = _run_before_scale(tier, seed, escalate)
+    f, n = axis_scale_independence("C12", SCALE_CASES, seed)
+    return merge_oracle(res, f, n, "axis_scale_variants")
